@@ -271,8 +271,13 @@ func (tree *MutableTree) set(key []byte, value []byte) (updated bool, err error)
 		return updated, nil
 	}
 
-	tree.root, updated, err = tree.recursiveSet(tree.root, key, value)
-	return updated, err
+	newRoot, updated, err := tree.recursiveSet(tree.root, key, value)
+	if err != nil {
+		// a failed descent returns no node: the working tree stays as it was
+		return updated, err
+	}
+	tree.root = newRoot
+	return updated, nil
 }
 
 func (tree *MutableTree) recursiveSet(node *Node, key []byte, value []byte) (
